@@ -7,6 +7,7 @@ package main
 //  R10d  the client's variable definitions are read on the request path
 
 import (
+	"go/token"
 	"sort"
 	"strings"
 
@@ -63,7 +64,7 @@ func (r *Run) readSet(roots ...*ssa.Function) map[string]bool {
 }
 
 // astNodeTypes: the request-dependent AST node types of an operation.
-var astNodeTypes = []string{"OperationDefinition", "FragmentDefinition", "FragmentSpread", "InlineFragment", "Field", "Argument", "Directive", "Value", "ChildValue"}
+var astNodeTypes = []string{"OperationDefinition", "FragmentDefinition", "FragmentSpread", "InlineFragment", "Field", "Argument", "Directive", "Value", "ChildValue", "VariableDefinition"}
 
 // derivedFields: fields that are functions of (schema, printed text), filled by the validator.
 var derivedFields = map[string]string{
@@ -77,7 +78,7 @@ var derivedFields = map[string]string{
 	"FragmentSpread.Definition":        "link to the fragment definition; its contents are compared field by field",
 	"Value.Definition":                 "validator annotation",
 	"Value.ExpectedType":               "validator annotation",
-	"Value.VariableDefinition":         "validator annotation that links to the operation's variable header; the planner does not follow it today (that is finding F13b) — once it does, this line must go, because the header is not part of the key",
+	"Value.VariableDefinition":         "validator annotation that links to the operation's variable header: a link only — what a reader takes from the header shows up as VariableDefinition.* and is compared with the key like any other field (the resolver of a cached introspection step reads the default value through it; the header was not part of the key until repair b8cc31b)",
 	"Value.Position":                   "source position only",
 	"Argument.Position":                "source position only",
 	"Directive.Position":               "source position only",
@@ -97,7 +98,37 @@ func ruleKeyReadSet(r *Run) {
 	if planner == nil || hash == nil {
 		return
 	}
-	pr := r.readSet(planner)
+	// readers of a plan: the planner, and whoever is handed the selection set a plan step keeps
+	// (the introspection resolver evaluates argument values on it for every later request that
+	// is served the cached plan)
+	roots := []*ssa.Function{planner}
+	for _, fn := range r.P.Funcs {
+		for _, ins := range allInstrs(fn) {
+			ci, ok := ins.(ssa.CallInstruction)
+			if !ok {
+				continue
+			}
+			for _, a := range ci.Common().Args {
+				ld, ok := unwrap(a).(*ssa.UnOp)
+				if !ok || ld.Op != token.MUL {
+					continue
+				}
+				fa, ok := ld.X.(*ssa.FieldAddr)
+				if !ok || fieldOf(fa) == nil || fieldOf(fa).Name() != "SelectionSet" || !strings.HasSuffix(namedOf(fa.X.Type()), "planner.QueryPlanStep") {
+					continue
+				}
+				if topFn(fn).Pkg != nil && topFn(fn).Pkg.Pkg.Path() == plannerPkg {
+					continue // plan-time use inside the planner: already a root
+				}
+				for _, e := range r.P.CG.Out[fn] {
+					if e.Site == ci && e.Callee != nil {
+						roots = append(roots, e.Callee)
+					}
+				}
+			}
+		}
+	}
+	pr := r.readSet(roots...)
 	hr := r.readSet(hash)
 	var keys []string
 	for k := range pr {
@@ -123,7 +154,7 @@ func ruleKeyReadSet(r *Run) {
 		case derivedFields[k] != "":
 			r.Tabled(rule, fnName(hash), "planner reads "+k, r.P.pos(hash.Pos()), "derivedFields", derivedFields[k])
 		default:
-			r.Bad(rule, fnName(hash), "planner reads "+k, r.P.pos(hash.Pos()), "the planner's result depends on "+k+" of the operation, but the cache key is computed without reading it: two operations that differ only there share one cached plan")
+			r.Bad(rule, fnName(hash), "planner reads "+k, r.P.pos(hash.Pos()), "the plan, or what a later reader takes from the selection set a cached plan keeps, depends on "+k+" of the operation, but the cache key is computed without reading it: two operations that differ only there share one cached plan")
 		}
 	}
 	r.AtLeast(rule, "AST fields read by the planner", n, 15)
